@@ -126,12 +126,15 @@ def run_tlc_mc(name, module, cfg, workers=8, timeout=3600, coverage=True, extra=
     actions = {}
     for am in re.finditer(r"^<(\w+) line \d+, col \d+ to line \d+, col \d+ of module (\w+)>: (\d+):(\d+)", out, re.M):
         actions[am.group(1)] = actions.get(am.group(1), 0) + int(am.group(4))
+    # witnesses printed by the specification itself (MC_Wal: "ACT|<action>")
+    for am in re.finditer(r'^"ACT\|(\w+)"', out, re.M):
+        actions[am.group(1)] = actions.get(am.group(1), 0) + 1
     info["actions"] = actions
     if expect_actions:
         info["vacuous_actions"] = [a for a in expect_actions if actions.get(a, 0) == 0]
     if not info["completed"] and not info["violated"] and not timed_out:
         info["tail"] = out[-3000:]
-    info["prints"] = [l for l in out.splitlines() if l.startswith('"') or l.startswith("<<")][:2000]
+    info["prints"] = [l for l in out.splitlines() if (l.startswith('"') or l.startswith("<<")) and not l.startswith('"ACT|')][:2000]
     return info
 
 
